@@ -197,7 +197,7 @@ pub fn run_prop(ctx: &Ctx, sink: &mut Sink) {
         for o in &opts { argv.extend(crate::xrun::opt_to_argv(o)); }
         let out = std::process::Command::new(ctx.bin("xargs")).args(&argv)
             .stdin(std::process::Stdio::piped()).stdout(std::process::Stdio::piped()).stderr(std::process::Stdio::null())
-            .spawn().and_then(|mut ch| { use std::io::Write; ch.stdin.take().unwrap().write_all(&input)?; ch.wait_with_output() }).expect("run xargs");
+            .spawn().and_then(|mut ch| { use std::io::Write; let _ = ch.stdin.take().unwrap().write_all(&input); ch.wait_with_output() }).expect("run xargs");
         // one run per line of output: `echo` followed by what it was given
         let text = out.stdout.clone();
         let mut runs: Vec<String> = vec![];
